@@ -254,12 +254,6 @@ func (c *c12) judgeLiteral(P, K string, admissible bool, sample interface{}, hos
 	if _, isMap := sample.(map[string]interface{}); isMap && typelessInRange(P) {
 		return // any JSON object is lexically a value of a typeless type
 	}
-	if f, isNum := sample.(float64); isNum && f != float64(int64(f)) && inList(O.KindLits(P), "XMLSchemaNonNegativeInteger") {
-		// a non-integral number is not a canonical count; whether a count
-		// property rejects or rounds it is not stated by the property
-		c.r.Count("partB.skipped_unspecified_lexical_form", 1)
-		return
-	}
 	fl := trueFlags(elem)
 	if len(fl) == 0 {
 		for _, k := range cands {
